@@ -117,6 +117,35 @@ Definition tap_table_step (is3w : bool) (tab : list crow) (rows : list trow) : l
 (* note: the lookup groups are built from the *input* rows (tap_pos, ids and masks are not modified by the
    hv pass), the lv pass works on the vectors updated by the hv pass; a row is masked on at most one side *)
 
+(* second tap changer (tap2_* columns, loop pass t = "2" of :600): there is no tap2_dependency_table column, so the pass is
+   always the ordinary (non-tabular) tap computation on the vectors left by the first pass (:673-699).  Modelled for the
+   rational cases: Ratio/Symmetrical with tap2_step_degree 0/NaN (vn = sqrt((u1+du)^2) = |u1+du|, no angle) and Ideal with
+   tap2_step_degree set (shift += direction * diff * degree). *)
+Record tap2 := { t2_side : side; t2_ideal : bool; t2_diff : Q; t2_pct : Q; t2_deg : Q }.
+Definition qabs2 (x : Q) : Q := if qltb x 0 then qopp x else x.
+Definition apply_tap2 (x : option tap2) (t : trow) : trow :=
+  match x with
+  | None => t
+  | Some a =>
+    match t2_side a with
+    | NoSide => t
+    | s =>
+      let dir := match s with LV => (-1 # 1) | _ => 1 end in
+      if t2_ideal a then
+        {| t_dep := t_dep t; t_id := t_id t; t_pos := t_pos t; t_side := t_side t; t_star := t_star t;
+           t_vnh := t_vnh t; t_vnl := t_vnl t;
+           t_shift := qadd (t_shift t) (qmul (qmul dir (t2_diff a)) (t2_deg a)) |}
+      else
+        let f := fun u1 => qabs2 (qadd u1 (qmul u1 (qdiv (qmul (t2_pct a) (t2_diff a)) 100))) in
+        {| t_dep := t_dep t; t_id := t_id t; t_pos := t_pos t; t_side := t_side t; t_star := t_star t;
+           t_vnh := match s with HV => f (t_vnh t) | _ => t_vnh t end;
+           t_vnl := match s with LV => f (t_vnl t) | _ => t_vnl t end;
+           t_shift := t_shift t |}
+    end
+  end.
+Fixpoint map2 {A B C} (f : A -> B -> C) (l : list A) (m : list B) : list C :=
+  match l, m with a :: l', b :: m' => f a b :: map2 f l' m' | _, _ => [] end.
+
 (* what "the same transformer with those values entered directly" gets: vn of the tap side times the given
    ratio, shift plus/minus the given angle (same conventions as above), no table involved *)
 Definition explicit_step (is3w : bool) (ratio0 ang0 : Q) (t : trow) : trow :=
@@ -160,6 +189,11 @@ Definition run_tap (is3w : bool) (tab : list crow) (rows : list trow) : out :=
   if existsb t_dep rows then
     if na_error rows then OErr "UserWarning" else olist otrow (tap_table_step is3w tab rows)
   else olist otrow rows.
+(* 2W frame with tap2_* columns: table step of the first tap changer, then the ordinary second tap changer *)
+Definition run_tap_2 (tab : list crow) (rows : list trow) (taps2 : list (option tap2)) : out :=
+  let r1 := if existsb t_dep rows then tap_table_step false tab rows else rows in
+  if existsb t_dep rows && na_error rows then OErr "UserWarning"
+  else olist otrow (map2 apply_tap2 taps2 r1).
 Definition run_vk (tab : list crow) (rows : list vrow) : out :=
   if existsb v_dep rows then
     if vk_na_error rows then OErr "UserWarning" else olist (fun t => olist oq (vk_values tab rows t)) rows
